@@ -551,7 +551,12 @@ func (ex *Exec) havocEverything(st *State) {
 	if ex.pureMode {
 		unsup("havoc in pure function")
 	}
-	ex.g.havocAll(st)
+	// the allocation set only grows: remember the pre-havoc set and state alloc@pre ⊆ alloc@post
+	g := ex.g
+	g.allocComp()
+	before := g.get(st, "alloc")
+	g.havocAll(st)
+	g.addFact(fmt.Sprintf("(forall ((r Int)) (! (=> (select %s r) (select %s r)) :pattern ((select %s r))))", before, g.get(st, "alloc"), before))
 }
 
 func (ex *Exec) runDefers(st *State) {
